@@ -73,3 +73,44 @@ def S0_order(ctx, rid, types=None):
         ok = len(fs) == 1 and fs[0]["tree"].get("path") == "std::cmp::Reverse" and fs[0]["tree"]["args"][0].get("path") == "routee_compass_core::model::unit::cost::Cost"
     ctx.check(ok, "ReverseCost:field", "ReverseCost is not a wrapper around std::cmp::Reverse<Cost>", None, detail="Reverse<Cost>")
     ctx.trust("ordered_float::OrderedFloat total order (NaN greatest) and std::cmp::Reverse")
+
+
+_UNIT_CACHE = {}
+
+
+def unit_obligations(F):
+    """all unit obligations of the workspace (cached per fact base)"""
+    import units
+
+    key = id(F)
+    if key not in _UNIT_CACHE:
+        summ = {}
+        rows = []
+        for b in F.local_bodies():
+            if "_serde" in b.path or "__Visitor" in b.path:
+                continue
+            ut = units.UnitTags(F, b, summ)
+            for ob in ut.obligations():
+                ob["status"] = units.status(ob)
+                rows.append(ob)
+        _UNIT_CACHE[key] = rows
+    return _UNIT_CACHE[key]
+
+
+def unit_rule(ctx, rid, text, fn_pred, floor):
+    """unit typestate: wherever the selected functions pair a quantity with a unit (call argument
+    pairs, (value, unit) tuples, the receiver of convert, state writes) the unit must be the one the
+    value is expressed in"""
+    ctx.rule(rid, text, floor=floor)
+    n = 0
+    for ob in unit_obligations(ctx.F):
+        if not fn_pred(ob["fn"]):
+            continue
+        short_fn = short_fn_name(ob["fn"])
+        inst = "%s:%s:%s" % (short_fn, ob["callee"], ob["kind"])
+        if ob["status"] == "ok":
+            n += 1
+            ctx.ok(inst, "%s in %s" % (short(ob["value"])[:70], short(ob["unit"])[:60]))
+        elif ob["status"] == "mismatch":
+            ctx.bad(inst, "quantity %s is expressed in %s but is used as %s" % (short(ob["value"])[:120], short(ob["tag"])[:100], short(ob["unit"])[:100]), ob["where"])
+    return n
